@@ -37,6 +37,8 @@ CALCS = {
     "elements.Fe[56].neutron.b_c, elements.Ni[62].neutron.b_c, elements.D.neutron.b_c":
         "(pt.elements.Fe[56].neutron.b_c, pt.elements.Ni[62].neutron.b_c, pt.elements.D.neutron.b_c)",
     "elements.Gd[157].neutron.scattering(wavelength=1.0)": "pt.elements.Gd[157].neutron.scattering(wavelength=1.0)",
+    "neutron_sld('Gd2O3', density=7.4, wavelength=0.5)": "pt.neutron_sld('Gd2O3', density=7.4, wavelength=0.5)",
+    "elements.Sm.neutron.nsf_table is None": "pt.elements.Sm.neutron.nsf_table is None",
 }
 
 
@@ -67,12 +69,15 @@ def child(mode, name):
         for nm in ("neutron", "xray", "covalent_radius", "crystal_structure", "magnetic_ff", "K_alpha", "neutron_activation"):
             getattr(pt.elements.Fe, nm, None)
         pt.elements.Fe.xray.sftable
-    try:
-        v = eval(CALCS[name])
-        out = repr(np.asarray(v, dtype=object).tolist() if not isinstance(v, (list, tuple, dict, float, int, str, type(None))) else v)
-    except Exception as e:  # noqa
-        out = "raises %s: %s" % (type(e).__name__, str(e)[:120])
-    json.dump(dict(out=out), sys.stdout)
+    def once():
+        try:
+            v = eval(CALCS[name])
+            return repr(np.asarray(v, dtype=object).tolist() if not isinstance(v, (list, tuple, dict, float, int, str, type(None))) else v)
+        except Exception as e:  # noqa
+            return "raises %s: %s" % (type(e).__name__, str(e)[:120])
+    out = once()
+    again = once() if mode == "first" else out     # the same call repeated in the same interpreter
+    json.dump(dict(out=out, again=again), sys.stdout)
 
 
 def run(mode, name):
@@ -83,7 +88,8 @@ def run(mode, name):
                        stderr=subprocess.PIPE, text=True, timeout=600, cwd="/")
     if p.returncode != 0:
         return "child failed: " + p.stderr[-300:]
-    return json.loads(p.stdout)["out"]
+    d = json.loads(p.stdout)
+    return d["out"] if d.get("again", d["out"]) == d["out"] else "%s   [the same call repeated at once gives %s]" % (d["out"], d["again"])
 
 
 def main():
